@@ -23,6 +23,10 @@ __all__ = ['SymReal', 'SymBool', 'Ctx', 'ctx', 'EngineUnsupported',
            'EngineNondeterminism', 'PathCap', 'lift', 'is_sym', 'explore',
            'Infeasible']
 
+if hasattr(__import__('sys'), 'set_int_max_str_digits'):
+    # solver models of nonlinear VCs can carry rationals with thousands of digits (z3 hands them over as strings)
+    __import__('sys').set_int_max_str_digits(0)
+
 BRANCH_TIMEOUT_MS = int(os.environ.get('VERIF_BRANCH_TIMEOUT_MS', '2000'))
 
 
@@ -271,8 +275,6 @@ class SymReal:
     ndim = 0  # behaves like a scalar for hasattr(value, 'ndim') dispatch
     shape = ()
 
-    def __len__(self):
-        raise TypeError("object of type 'SymReal' has no len()")
 
 
 class SymBool:
@@ -407,6 +409,10 @@ class Ctx:
             f = self.uf('log', 1)
             r = f(t)
             self._log_terms[key] = r
+            # ground instance of log 1 = 0 for this argument term (needed when the argument is 1 only
+            # semantically, e.g. the sum of a normalised composition  n1/(n1+n2) + n2/(n1+n2))
+            if c is None:
+                self.assume_axiom(z3.Implies(t == 1, r == 0))
             # exp(log x) = x is applied by fn_exp syntactically
         return SymReal(r)
 
